@@ -13,7 +13,8 @@ from pynetdicom2 import applicationentity, asceprovider, pdu, exceptions, userda
 ASSUMPTIONS = [
     'application entity = a real applicationentity.AE object whose TCP server part is not constructed (AEBase.__init__ '
     '+ the real add_scp); services are recording callables with a sop_classes list; the acceptor is built without its '
-    'provider thread (dul.send records)',
+    'provider thread: every association is a real AssociationAcceptor constructed by its constructor (which runs '
+    'setup/handle/finish) with asceprovider.dulprovider replaced by a scripted recorder and a stand-in client socket',
     'universe: abstract syntaxes A, B (servable) and C (never served); 4 transfer syntaxes; context ids odd 1..255',
 ]
 
@@ -30,7 +31,6 @@ class Service(object):
 
     def __call__(self, asce, ctx, msg):
         self.calls.append((ctx, msg))
-        asce.is_killed = True          # serve one message, then leave the loop
 
 
 def make_ae(scp_mask, ts_bits):
@@ -56,7 +56,7 @@ def build_request(ctxs, called='SCP', calling='SCU', maxlen=32768):
 
 def check_reply(acc, rq, ctxs, served, supported):
     """Compare the acceptor's reply and routing tables with the reference decision."""
-    if len(acc.dul.sent) != 1:
+    if acc is None or len(acc.dul.sent) < 1:
         return False
     rsp = acc.dul.sent[0]
     if getattr(rsp, 'pdu_type', None) != 2:
@@ -103,19 +103,25 @@ class Msg(object):
         self.sop_class_uid = sop
 
 
-def check_dispatch(acc, svcs, ctxs, served, supported, which):
-    """A message arriving on context ctxs[which] is served iff that context was accepted."""
+def serve(ae, rq, msgs):
+    """One whole association through the real AssociationAcceptor constructor: request, then the given messages."""
+    acc, dul, err = A.run_acceptor(ae, 16384, [rq] + list(msgs))
+    return acc, err
+
+
+def check_dispatch(ae, rq, svcs, ctxs, served, supported, which):
+    """A message arriving on context ctxs[which] (new association, same entity) is served iff it was accepted."""
     cid, abstract, tss = ctxs[which]
     want = ref.decide(ctxs, served, supported)[which]
-    acc.dul.script.append((Msg(abstract), cid))
-    acc.is_killed = False
-    try:
-        acc._loop()
+    for s_ in svcs:
+        del s_.calls[:]
+    acc, err = serve(ae, rq, [(Msg(abstract), cid)])
+    if err is None:
         outcome = 'served'
-    except exceptions.ClassNotSupportedError:
+    elif isinstance(err, exceptions.ClassNotSupportedError):
         outcome = 'refused'
-    except exceptions.DCMTimeoutError:
-        outcome = 'timeout'
+    else:
+        outcome = 'other'
     calls = [(s.name, c) for s in svcs for c in s.calls]
     if want[1]:
         if outcome != 'served' or len(calls) != 1:
@@ -152,12 +158,11 @@ def accept_one(perm: int, k: int, s0: bool, s1: bool, s2: bool, s3: bool) -> boo
     tss = [TSU[i] for i in _perms()[perm][:k]]
     ctxs = [(cid, ABS[fam('abs')], tss)]
     rq = build_request(ctxs)
-    acc = A.make_acceptor(ae, 16384)
-    acc.accept(rq)
+    acc, err = serve(ae, rq, [])
     served = [ABS[i] for i in range(2) if fam('scp') & (1 << i)]
     supported = [t for t, b in zip(TSU, bits) if b]
-    ok = check_reply(acc, rq, ctxs, served, supported)
-    ok = ok and check_dispatch(acc, svcs, ctxs, served, supported, 0)
+    ok = err is None and check_reply(acc, rq, ctxs, served, supported)
+    ok = ok and check_dispatch(ae, rq, svcs, ctxs, served, supported, 0)
     deep(ok and k == 3 and s2 and not s0)
     return ok
 
@@ -180,17 +185,45 @@ def accept_many(n: int, a0: int, a1: int, a2: int, s0: bool, s1: bool) -> bool:
     ae, svcs = make_ae(fam('scp'), bits)
     ctxs = [(2 * h + 1, ABS[a], l) for h, a, l in ((h0, a0, LISTS3[0]), (h1, a1, LISTS3[1]), (h2, a2, LISTS3[2]))][:n]
     rq = build_request(ctxs)
-    acc = A.make_acceptor(ae, 16384)
-    acc.accept(rq)
+    acc, err = serve(ae, rq, [])
     served = [ABS[i] for i in range(2) if fam('scp') & (1 << i)]
     supported = [t for t, b in zip(TSU, bits) if b]
-    ok = check_reply(acc, rq, ctxs, served, supported)
-    n_acc = len(acc.accepted_contexts)
+    ok = err is None and check_reply(acc, rq, ctxs, served, supported)
+    n_acc = len(acc.accepted_contexts) if acc is not None else -1
     for which in range(n):
-        for s_ in svcs:
-            del s_.calls[:]
-        ok = ok and check_dispatch(acc, svcs, ctxs, served, supported, which)
+        ok = ok and check_dispatch(ae, rq, svcs, ctxs, served, supported, which)
     deep(ok and n == 3 and (n_acc == 2 or fam('scp') == 0))
+    return ok
+
+
+@cond(bounds='two associations in a row on one entity: the first proposes context id 1 for a served class (accepted), '
+             'the second proposes the same id for abstract syntax X (symbolic over A/B/C) with a symbolic transfer-syntax '
+             'choice; served set per instance; a message then arrives on id 1 of the second association - what is served '
+             'must follow from the second negotiation only', family={'scp': [1, 2, 3]}, timeout=240)
+def accept_sequence(a2: int, t2: int, s0: bool, s1: bool) -> bool:
+    """
+    pre: 0 <= a2 <= 2 and 0 <= t2 <= 1
+    post: _
+    """
+    a2, t2 = pick(a2, 0, 2), pick(t2, 0, 1)
+    bits = (s0, s1, False, False)
+    ae, svcs = make_ae(fam('scp'), bits)
+    served = [ABS[i] for i in range(2) if fam('scp') & (1 << i)]
+    supported = [t for t, b in zip(TSU, bits) if b]
+    first = [(1, served[0], [TSU[0], TSU[1]]), (3, served[-1], [TSU[1]])]
+    rq1 = build_request(first)
+    acc1, err1 = serve(ae, rq1, [(Msg(served[0]), 1)])
+    second = [(1, ABS[a2], [TSU[t2]]), (5, served[0], [TSU[1 - t2]])]
+    rq2 = build_request(second)
+    acc2, err2 = serve(ae, rq2, [])
+    ok = check_reply(acc2, rq2, second, served, supported)
+    ok = ok and check_dispatch(ae, rq2, svcs, second, served, supported, 0)
+    # a context id of the *earlier* association that the later one never proposed is not served either
+    for s_ in svcs:
+        del s_.calls[:]
+    acc3, err3 = serve(ae, rq2, [(Msg(served[-1]), 3)])
+    ok = ok and isinstance(err3, exceptions.ClassNotSupportedError) and sum(len(s_.calls) for s_ in svcs) == 0
+    deep(ok and a2 == 2 and s0)
     return ok
 
 
@@ -204,9 +237,8 @@ def accept_titles(called: str, calling: str, mx: int) -> bool:
     ae, svcs = make_ae(1, (True, False, False, False))
     ctxs = [(1, ABS[0], [TSU[0]])]
     rq = build_request(ctxs, called, calling, mx)
-    acc = A.make_acceptor(ae, 16384)
-    acc.accept(rq)
-    ok = check_reply(acc, rq, ctxs, [ABS[0]], [TSU[0]]) and acc.remote_ae == calling
+    acc, err = serve(ae, rq, [])
+    ok = err is None and check_reply(acc, rq, ctxs, [ABS[0]], [TSU[0]]) and acc.remote_ae == calling
     deep(ok and len(called) == 2 and called != calling)
     return ok
 
